@@ -2,6 +2,8 @@ import JPV.Impl.Parse
 import JPV.Spec.Grammar
 import JPV.Spec.Typing
 import JPV.Proofs.Requery
+import JPV.Proofs.Cs.LexMain
+import JPV.Proofs.Cs.ParseSegs
 namespace JPV.Proofs
 open JPV JPV.Impl
 
@@ -14,6 +16,13 @@ theorem compile_complete_structural (env : Env) (s : Str) (c : List Spec.CSegmen
     (hp : Spec.parseQuery s = .valid c)
     (hff : Spec.filterFree (Spec.abstractSegs c) = true)
     (hr : Spec.intsQuery env.minIdx env.maxIdx (Spec.abstractSegs c) = true) :
-    Impl.compile env s = .ok (Spec.abstractSegs c) := by sorry
+    Impl.compile env s = .ok (Spec.abstractSegs c) := by
+  obtain ⟨ts, k0, ke, hsh, htok⟩ := Cs.tokenize_valid s c hp (Cs.ffSegs_of c hff)
+  have hpar := Cs.parse_top env hsh hr ⟨.root, ['$'], k0⟩ ⟨.eof, [], ke⟩ rfl rfl
+    (parseFuel (⟨.root, ['$'], k0⟩ :: (ts ++ [⟨.eof, [], ke⟩])).length)
+    (by simp only [parseFuel, List.length_cons, List.length_append, List.length_nil]; omega)
+  unfold Impl.compile
+  rw [htok]
+  exact hpar
 
 end JPV.Proofs
